@@ -308,6 +308,9 @@ impl<M: Math> TransformedPoint<M> {
     }
 
     fn check_all(&self, math: &mut M) -> bool {
+        if !self.logp.is_finite() {
+            return false;
+        }
         if !math.array_all_finite(&self.transformed_position) {
             return false;
         }
